@@ -92,7 +92,9 @@ Proof.
   intros pdus sigs size. unfold gen_calc_dlc.
   rewrite (fold_opt_some _ _ _ mb_rec); [|max_round].
   cbv beta iota zeta. unfold calc_dlc, max_byte. rewrite max_bit_recs.
-  set (M := fold_left mb_rec sigs 0). f_equal; lia.
+  set (M := fold_left mb_rec sigs 0).
+  (* any further case splits of the source (e.g. around a log call) are decided here *)
+  repeat case_if; try discriminate; f_equal; lia.
 Qed.
 Print Assumptions tie_calc_dlc.
 
@@ -106,7 +108,7 @@ Ltac per_frame Hplain :=
   cbv beta iota zeta; rewrite ?tie_calc_dlc; cbv beta iota zeta;
   try (rewrite (fold_opt_some _ _ _ mb_rec); [|max_round]);
   cbv beta iota zeta; cbn [Z.eqb Pos.eqb]; cbv beta iota zeta;
-  unfold max_byte; rewrite ?max_bit_recs; same_frame.
+  unfold max_byte; rewrite ?max_bit_recs; repeat case_if; try discriminate; same_frame.
 
 (* The property speaks about the two strategies "max" and "force" (never below the declared length / forced); what the code
    does with any other string is not part of the obligation. *)
